@@ -54,3 +54,52 @@ package runner
 //@   loop 2 modifies nothing
 //@   loop 2 invariant[none-yet] forall(i, 0, idx2, !policy.Diagnosis[i].Enabled)
 //@   ensures[only-when-declared] result ==> exists(i, 0, len(globalPolicies.Diagnosis), globalPolicies.Diagnosis[i].Enabled) || (best(pdecl, url) != "" && in(urltree.Method(methodStr), *pval[best(pdecl, url)]) && exists(i, 0, len((*pval[best(pdecl, url)])[urltree.Method(methodStr)].Diagnosis), (*pval[best(pdecl, url)])[urltree.Method(methodStr)].Diagnosis[i].Enabled))
+
+// ---------------------------------------------------------------- C07: combining the actions of the remedies (policy mode)
+// The same fold as routing.getSPOEReqActions / getSPOERespActions, over the actions the remedy plugins return one by one.
+// acts[j]: the action returned for the j-th remedy (ghost). A plugin returns a well-formed action or an error (trusted).
+//@ extern remedyOnRequest
+//@   modifies heap
+//@   ensures result1 == nil ==> reqOK(result0)
+//@ extern remedyOnResponse
+//@   modifies heap
+//@   ensures result1 == nil ==> respOK(result0)
+//@ iface ReqLunarAction.EnsureRequestIsUpdated
+//@   params r
+//@   modifies heap
+//@ iface RespLunarAction.EnsureResponseIsUpdated
+//@   params r
+//@   modifies heap
+//@ pure ReqLunarAction.ReqRunResult
+//@ pure RespLunarAction.RespRunResult
+//@ pure Remedy.Type
+//@ ghost func rIsER(a actions.ReqLunarAction) bool = typeis(a, *actions.EarlyResponseAction)
+//@ ghost func rIsNoOp(a actions.ReqLunarAction) bool = typeis(a, *actions.NoOpAction)
+//@ ghost func rIsRespNoOp(a actions.RespLunarAction) bool = typeis(a, *actions.NoOpAction)
+
+//@ func runOnRequest
+//@   prop C07
+//@   dispatch ReqLunarAction.ReqPrioritize => *NoOpAction, *EarlyResponseAction, *ModifyRequestAction, *ModifyHeadersAction, *GenerateRequestAction
+//@   ghostlocal acts gmap[int]actions.ReqLunarAction
+//@   allocates any
+//@   modifies heap
+//@   loop 1 modifies heap
+//@   loop 1 do acts[idx1 - 1] = action
+//@   loop 1 invariant[ok]          reqOK(prioritizedAction) && forall(j, 0, idx1, reqOK(acts[j]))
+//@   loop 1 invariant[early-iff]   rIsER(prioritizedAction) <==> exists(j, 0, idx1, rIsER(acts[j]))
+//@   loop 1 invariant[first-early] rIsER(prioritizedAction) ==> exists(j, 0, idx1, prioritizedAction == acts[j] && forall(m, 0, j, !rIsER(acts[m])))
+//@   loop 1 invariant[noop-iff]    rIsNoOp(prioritizedAction) <==> forall(j, 0, idx1, rIsNoOp(acts[j]))
+//@   ensures[first-early-response-wins] result1 == nil && (exists(j, 0, len(remedies), rIsER(acts[j]))) ==> exists(j, 0, len(remedies), result0.action == acts[j] && rIsER(acts[j]) && forall(m, 0, j, !rIsER(acts[m])))
+//@   ensures[noop-only-if-all-noop] result1 == nil ==> (rIsNoOp(result0.action) <==> forall(j, 0, len(remedies), rIsNoOp(acts[j])))
+
+//@ func runOnResponse
+//@   prop C07
+//@   dispatch RespLunarAction.RespPrioritize => *NoOpAction, *ModifyResponseAction, *RetryRequestAction
+//@   ghostlocal acts gmap[int]actions.RespLunarAction
+//@   allocates any
+//@   modifies heap
+//@   loop 1 modifies heap
+//@   loop 1 do acts[idx1 - 1] = action
+//@   loop 1 invariant[ok]       respOK(prioritizedAction) && forall(j, 0, idx1, respOK(acts[j]))
+//@   loop 1 invariant[noop-iff] rIsRespNoOp(prioritizedAction) <==> forall(j, 0, idx1, rIsRespNoOp(acts[j]))
+//@   ensures[noop-never-displaces] result1 == nil ==> (rIsRespNoOp(result0.action) <==> forall(j, 0, len(remedies), rIsRespNoOp(acts[j])))
